@@ -20,6 +20,7 @@ import (
 	"github.com/atlassian/gostatsd/pkg/lambda"
 	"github.com/atlassian/gostatsd/pkg/statsd"
 	"github.com/atlassian/gostatsd/pkg/transport"
+	"github.com/atlassian/gostatsd/verifhooks"
 	"github.com/sirupsen/logrus"
 	"github.com/spf13/viper"
 	"google.golang.org/protobuf/proto"
@@ -531,5 +532,85 @@ func TestStartupFailure(t *testing.T) {
 			vt.Fail(t, "C20:startup-failure-not-reported", "server failed to start (%s): /init/error called %d times, /event/next requested %d times; log %v", cause, initErr, nexts, describe(w.snapshot()))
 		}
 		ev.C().Case(fmt.Sprintf("S|%s|%v", cause, manual), true, "startup-failure", "cause="+cause)
+	})
+}
+
+// stubServer is a server whose Run ends the way the case says: after a delay, with a drawn error.
+type stubServer struct {
+	after time.Duration
+	err   error
+}
+
+func (s stubServer) Run(ctx context.Context) error {
+	select {
+	case <-time.After(s.after):
+		return s.err
+	case <-ctx.Done():
+		return ctx.Err()
+	}
+}
+
+// TestStartupFailureKinds: the extension manager around a stub server whose Run fails inside the start-up window with
+// errors of different shapes - plain, wrapping a deadline or cancellation of some *inner* context (a start-up probe
+// that timed out), or nil (an early exit). The extension's own context is alive in every case, so every one of them is
+// a start-up failure: /init/error is called once and /event/next never.
+func TestStartupFailureKinds(t *testing.T) {
+	rapid.Check(t, func(t *rapid.T) {
+		w := &world{nextCh: make(chan string), nextSeen: make(chan int, 16), subHold: make(chan struct{})}
+		close(w.subHold)
+		api := httptest.NewServer(w.lambdaAPI())
+		defer api.Close()
+		kind := rapid.SampledFrom([]string{"plain", "wraps-deadline-exceeded", "wraps-canceled", "bare-deadline-exceeded", "bare-canceled", "nil-early-exit", "joined"}).Draw(t, "error-kind")
+		var err error
+		switch kind {
+		case "plain":
+			err = fmt.Errorf("listen udp :8125: bind: address already in use")
+		case "wraps-deadline-exceeded":
+			err = fmt.Errorf("start-up probe: %w", context.DeadlineExceeded)
+		case "wraps-canceled":
+			err = fmt.Errorf("start-up step aborted: %w", context.Canceled)
+		case "bare-deadline-exceeded":
+			err = context.DeadlineExceeded
+		case "bare-canceled":
+			err = context.Canceled
+		case "joined":
+			err = fmt.Errorf("backend init: %w; also %v", context.DeadlineExceeded, "x")
+		}
+		after := time.Duration(rapid.SampledFrom([]int{0, 1, 20}).Draw(t, "fails-after-ms")) * time.Millisecond
+		manual := rapid.Bool().Draw(t, "manual-flush")
+		var fc verifhooks.Coordinator
+		if manual {
+			fc = verifhooks.NewFlushCoordinator()
+		}
+		m := verifhooks.NewExtensionManager(strings.TrimPrefix(api.URL, "http://"), "gostatsd", logrus.StandardLogger(), stubServer{after: after, err: err}, fc, fmt.Sprintf("127.0.0.1:%d", freePort()))
+		ctx, cancel := context.WithCancel(context.Background())
+		defer cancel()
+		runDone := make(chan error, 1)
+		go func() { runDone <- m.Run(ctx) }()
+		select {
+		case rerr := <-runDone:
+			if rerr == nil {
+				vt.Fail(t, "C20:startup-failure-not-reported", "Run returned nil although the server's Run ended during start-up (%s after %v)", kind, after)
+			}
+			if strings.Contains(rerr.Error(), "address already in use") && kind != "plain" {
+				ev.C().Excluded("port-collision-with-another-process", 1)
+				t.Skip("a harness port was taken by another process")
+			}
+		case <-time.After(30 * time.Second):
+			vt.Fail(t, "C20:startup-failure-not-reported", "Run did not return within 30s although the server's Run ended during start-up (%s after %v); log %v", kind, after, describe(w.snapshot()))
+		}
+		initErr, nexts := 0, 0
+		for _, e := range w.snapshot() {
+			switch e.kind {
+			case "init-error":
+				initErr++
+			case "next-request":
+				nexts++
+			}
+		}
+		if initErr != 1 || nexts != 0 {
+			vt.Fail(t, "C20:startup-failure-not-reported", "server Run ended during start-up (%s after %v): /init/error called %d times, /event/next requested %d times; log %v", kind, after, initErr, nexts, describe(w.snapshot()))
+		}
+		ev.C().Case(fmt.Sprintf("K|%s|%v|%v", kind, after, manual), kind != "plain", "startup-failure", "error-kind="+kind)
 	})
 }
